@@ -6,12 +6,19 @@
   `k <subject hex> <item> …`            shell leg: `st 7; case …`; item = `<b|f|c><e|z|s>:<alt>,<alt>…`
                                         (`;;` `;&` `;;&`), alt = `v<hex>` `$N` | `q<hex>` `"$N"` | `l<hex>` text in the
                                         script | `s<hex>` `'text'` | `m<hex>_<hex>` `"$N"$M`
+  `w <subject hex> <word>`              shell leg: `case $1 in (WORD) …;; (*) …` and `${1#WORD}` `##` `%` `%%` for a pattern word
+                                        built from every quoting mechanism; word = units joined by `/`:
+                                        `L<hex>` unquoted text | `B<hex>` `\c` | `S<hex>` `'…'` | `P<hex>` `${N}` with that value |
+                                        `A<word'>` `${1+word'}` | `D<text>` `"…"`, text = `l<hex>` | `b<hex>` `\c` | `p<hex>` | `a<word'>`
+                                        joined by `;` (inside an `A`/`a` word the separators are `+` and `~`)
   `s <subject hex> <q1> <p1> <q2> <p2>` shell leg: `case $1 in ("$2"$3) …;; ("$4"$5) …;; (*) …` and
                                         `${1#"$2"$3}` `##` `%` `%%`
 -/
 import YashModel.Common.Proto
 import YashModel.Fnmatch.Model
 import YashModel.Fnmatch.Spec
+import YashModel.Fnmatch.Word
+import YashModel.Fnmatch.WordSpec
 open YashModel YashModel.Fnmatch YashModel.Proto
 
 def showErr : Err → String
@@ -299,6 +306,94 @@ def parseAstAtom (t : String) : Option Atom :=
 def parseAst (t : String) : Option Ast :=
   if t == "-" then some [] else (t.splitOn ",").mapM parseAstAtom
 
+/-! pattern words (`w` cases): the encoding of the header comment -/
+
+def litsW (cs : List Char) (rest : PWord) : PWord := cs.foldr (fun c w => .cons (.unq (.lit c)) w) rest
+def litsT (cs : List Char) (rest : PText) : PText := cs.foldr (fun c t => .cons (.lit c) t) rest
+
+def oneChar (h : List Char) : Option Char := do
+  match ← decChars (String.ofList h) with
+  | [c] => some c
+  | _ => none
+
+/-- `lvl` 0: the word of the case (separators `/` and `;`); 1: the word of a `${1+…}` (separators `+` and `~`);
+    an `A`/`a` unit is only accepted at level 0 -/
+def wordSep (lvl : Nat) : String := if lvl = 0 then "/" else "+"
+def textSep (lvl : Nat) : String := if lvl = 0 then ";" else "~"
+
+def appendW : PWord → PWord → PWord
+  | .nil, r => r
+  | .cons u w, r => .cons u (appendW w r)
+
+mutual
+  def parseTUnit (fuel : Nat) (lvl : Nat) (t : String) (rest : PText) : Option PText :=
+    match fuel with
+    | 0 => none
+    | fuel + 1 =>
+      match t.toList with
+      | 'l' :: h => do pure (litsT (← decChars (String.ofList h)) rest)
+      | 'b' :: h => do pure (.cons (.bs (← oneChar h)) rest)
+      | 'p' :: h => do pure (.cons (.param (← decChars (String.ofList h))) rest)
+      | 'a' :: h => if lvl = 0 then do pure (.cons (.alt (← parseWordL fuel 1 (String.ofList h))) rest) else none
+      | _ => none
+  def parseTextL (fuel : Nat) (lvl : Nat) (s : String) : Option PText :=
+    match fuel with
+    | 0 => none
+    | fuel + 1 =>
+      if s.isEmpty then some .nil
+      else (s.splitOn (textSep lvl)).foldr (fun t acc => acc.bind (parseTUnit fuel lvl t)) (some .nil)
+  def parseWUnit (fuel : Nat) (lvl : Nat) (t : String) (rest : PWord) : Option PWord :=
+    match fuel with
+    | 0 => none
+    | fuel + 1 =>
+      match t.toList with
+      | 'L' :: h => do pure (litsW (← decChars (String.ofList h)) rest)
+      | 'B' :: h => do pure (.cons (.unq (.bs (← oneChar h))) rest)
+      | 'S' :: h => do pure (.cons (.sq (← decChars (String.ofList h))) rest)
+      | 'P' :: h => do pure (.cons (.unq (.param (← decChars (String.ofList h)))) rest)
+      | 'A' :: h => if lvl = 0 then do pure (.cons (.unq (.alt (← parseWordL fuel 1 (String.ofList h)))) rest) else none
+      | 'D' :: h => do pure (.cons (.dq (← parseTextL fuel lvl (String.ofList h))) rest)
+      | _ => none
+  def parseWordL (fuel : Nat) (lvl : Nat) (s : String) : Option PWord :=
+    match fuel with
+    | 0 => none
+    | fuel + 1 =>
+      if s.isEmpty then some .nil
+      else (s.splitOn (wordSep lvl)).foldr (fun t acc => acc.bind (parseWUnit fuel lvl t)) (some .nil)
+end
+
+def parseWord (s : String) : Option PWord := parseWordL 8 0 s
+
+def hexNat (n : Nat) : String := String.ofList (Nat.toDigits 16 n)
+
+/-- the attributed characters as the harness prints those of the real `expand_word_attr` -/
+def showAttrs (cs : List PAttrChar) : String :=
+  if cs.isEmpty then "-" else ".".intercalate (cs.map fun c =>
+    let o := match c.origin with | .literal => "L" | .hardExpansion => "H" | .softExpansion => "S"
+    s!"{hexNat c.value.toNat}{o}{bit c.isQuoted}{bit c.isQuoting}")
+
+def observeWord (subj : List Char) (w : PWord) : String × String :=
+  let scalarOf : Value → List Char
+    | .scalar v => v
+    | .array _ => []
+  let arm := if itemMatches subj [patternOfWord w] then "1" else "0"
+  let t := trims.map fun (sd, ln) => encChars (scalarOf (trimApplyValue sd ln (wordAttrs w) (.scalar subj)))
+  let obs := s!"arm={arm} T={",".intercalate t} X={showAttrs w.expand}"
+  -- Spec: the word's pattern characters by XCU 2.13.1 (`specWordChars`), the notation by the grammar, the match by
+  -- the glob semantics, the trims by `specTrim`
+  let ast := specParse (specWordChars w)
+  let spec :=
+    if !noEscapedMark (wordAttrs w) || !astDefined ast then "-"
+    else
+      let sarm := if globMatch ast subj then "1" else "0"
+      let ts := if hasSeq ast then trims.filter (fun x => x.1 == TrimSide.suffix) else trims
+      if sarm != arm then "FAIL:case-vs-spec-word"
+      else match ts.find? (fun (sd, ln) =>
+          specTrim sd ln ast subj != scalarOf (trimApplyValue sd ln (wordAttrs w) (.scalar subj))) with
+        | some (sd, ln) => s!"FAIL:trim-{repr sd}-{repr ln}"
+        | none => "ok"
+  (obs, spec)
+
 def runLine (line : String) : String :=
   let r : Option (String × String) :=
     match words line with
@@ -309,6 +404,8 @@ def runLine (line : String) : String :=
       pure (observe (parseAtoms pcs) (specParse pcs) t)
     | ["s", s, q1, p1, q2, p2] => do
       pure (observeShell (← decChars s) (← decChars q1) (← decChars p1) (← decChars q2) (← decChars p2))
+    | ["w", s, wd] => do
+      pure (observeWord (← decChars s) (← parseWord wd))
     | ["a", ast, t] => do
       let a ← parseAst ast
       pure (observe a a (← decChars t))
